@@ -183,6 +183,9 @@ class StreamModuleWrapper(Elaboratable):
         wiring.connect(m.main_module, source.o, module.i)
         wiring.connect(m.main_module, module.o, sink.i)
 
+        # the wrapped module may pass `ready` through combinationally: then write's readiness depends on read running
+        sink.read.schedule_before(source.write)
+
         self.write.provide(source.write)
         self.read.provide(sink.read)
 
